@@ -1003,3 +1003,419 @@ Section Scan.
       + unfold thrB. cbn [at_]. exact La.
   Qed.
 End Scan.
+
+(* ---------- recsame instances ---------- *)
+Lemma recsame_heap g g' : heap g' = heap g -> zlog g' = zlog g -> zhead g' = zhead g -> recsame g g' None.
+Proof.
+  intros Hh Hz Hd.
+  assert (forall k, getc g' k = getc g k) as G by (intros k; unfold getc; rewrite Hh; reflexivity).
+  constructor; auto.
+  - intros k _. unfold isrec. rewrite G. reflexivity.
+  - intros k _. unfold grec. rewrite G. reflexivity.
+  - intros k _ _. unfold cs_of. rewrite G. reflexivity.
+  - intros k. unfold isnode. rewrite G. auto.
+  - intros k E. discriminate.
+Qed.
+Lemma recsame_ext g g1 g2 zc : recsame g g1 zc -> heap g2 = heap g1 -> zlog g2 = zlog g1 -> zhead g2 = zhead g1 -> recsame g g2 zc.
+Proof.
+  intros [A B C D E F G] Hh Hz Hd.
+  assert (forall k, getc g2 k = getc g1 k) as Q by (intros k; unfold getc; rewrite Hh; reflexivity).
+  constructor; try congruence.
+  - intros k Hk. rewrite <- (C k Hk). unfold isrec. rewrite Q. reflexivity.
+  - intros k Hk. rewrite <- (D k Hk). unfold grec. rewrite Q. reflexivity.
+  - intros k Hk Hr. rewrite <- (E k Hk Hr). unfold cs_of. rewrite Q. reflexivity.
+  - intros k Hk. specialize (F k Hk). unfold isnode in *. rewrite Q. exact F.
+  - exact G.
+Qed.
+Lemma recsame_refl g : recsame g g None.
+Proof. apply recsame_heap; reflexivity. Qed.
+Lemma recsame_setn g k n : isnode g k = true -> recsame g (setn g k n) None.
+Proof.
+  intros H. destruct (modc_fields g k (set_body (BNode n))) as (F1 & F2 & F3 & F4 & F5 & F6 & F7 & F8 & F9 & F10 & F11 & F12).
+  constructor; auto.
+  - intros j _. apply isrec_setn. exact H.
+  - intros j _. apply grec_setn. exact H.
+  - intros j _ _. apply cs_of_setn.
+  - intros j Hj. rewrite isnode_setn; auto.
+  - intros j E. discriminate.
+Qed.
+Lemma recsame_alloc_node g n : recsame g (fst (do_alloc g (BNode n))) None.
+Proof.
+  constructor; try reflexivity.
+  - intros k _. rewrite isrec_alloc. destruct (Nat.eqb_spec k (nheap g)) as [->|]; [|reflexivity].
+    unfold isrec. rewrite getc_ge by lia. reflexivity.
+  - intros k _. apply grec_alloc_node.
+  - intros k _ Hr. rewrite cs_of_alloc. destruct (Nat.eqb_spec k (nheap g)) as [->|]; [|reflexivity]. apply isrec_lt in Hr. lia.
+  - intros k Hk. rewrite isnode_alloc. destruct (Nat.eqb k (nheap g)); auto.
+  - intros k E. discriminate.
+Qed.
+Lemma recsame_alloc_rec g r : (forall k, In k (zlog g) -> k < nheap g) -> recsame g (fst (do_alloc g (BRec r))) (Some (nheap g)).
+Proof.
+  intros Hlt. constructor; try reflexivity.
+  - intros k Hk. rewrite isrec_alloc. destruct (Nat.eqb_spec k (nheap g)) as [->|]; [congruence|reflexivity].
+  - intros k Hk. unfold grec. rewrite getc_alloc. destruct (Nat.eqb_spec k (nheap g)) as [->|]; [congruence|reflexivity].
+  - intros k Hk _. rewrite cs_of_alloc. destruct (Nat.eqb_spec k (nheap g)) as [->|]; [congruence|reflexivity].
+  - intros k Hk. rewrite isnode_alloc. destruct (Nat.eqb_spec k (nheap g)) as [->|]; [|exact Hk]. apply isnode_lt in Hk. lia.
+  - intros k E Hin. inversion E; subst k. specialize (Hlt _ Hin). lia.
+Qed.
+Lemma recsame_construct_node g n x : isnode g n = true -> recsame g (fst (do_construct g n (BNode x))) None.
+Proof.
+  intros H. destruct (construct_fields g n (BNode x)) as (F1 & F2 & F3 & F4 & F5 & F6 & F7 & F8 & F9 & F10 & F11 & F12).
+  constructor; auto.
+  - intros j _. apply isrec_construct_node. exact H.
+  - intros j _. apply grec_construct_node. exact H.
+  - intros j _ Hr. rewrite cs_of_construct. destruct (Nat.eqb_spec j n) as [->|]; [|reflexivity].
+    rewrite (isnode_isrec _ _ H) in Hr. discriminate.
+  - intros j Hj. rewrite isnode_construct_node; auto.
+  - intros j E. discriminate.
+Qed.
+Lemma recsame_construct_rec g z r : isrec g z = true -> ~ In z (zlog g) -> recsame g (fst (do_construct g z (BRec r))) (Some z).
+Proof.
+  intros H Hz. destruct (construct_fields g z (BRec r)) as (F1 & F2 & F3 & F4 & F5 & F6 & F7 & F8 & F9 & F10 & F11 & F12).
+  constructor; auto.
+  - intros j Hj. apply isrec_construct_rec. exact H.
+  - intros j Hj. rewrite grec_construct_rec by exact H. destruct (Nat.eqb_spec j z) as [->|]; [congruence|reflexivity].
+  - intros j Hj _. rewrite cs_of_construct. destruct (Nat.eqb_spec j z) as [->|]; [congruence|reflexivity].
+  - intros j Hj. rewrite isnode_construct_rec; auto.
+  - intros j E. inversion E; subst j. exact Hz.
+Qed.
+Lemma recsame_setz g z r : isrec g z = true -> ~ In z (zlog g) -> recsame g (setz g z r) (Some z).
+Proof.
+  intros H Hz. destruct (modc_fields g z (set_body (BRec r))) as (F1 & F2 & F3 & F4 & F5 & F6 & F7 & F8 & F9 & F10 & F11 & F12).
+  constructor; auto.
+  - intros j Hj. apply isrec_setz. exact H.
+  - intros j Hj. apply grec_setz_ne. congruence.
+  - intros j Hj _. apply cs_of_setz.
+  - intros j Hj. rewrite isnode_setz; auto.
+  - intros j E. inversion E; subst j. exact Hz.
+Qed.
+Lemma recsame_destroy_node g d : isrec g d = false -> recsame g (fst (do_destroy g d)) None.
+Proof.
+  intros H. destruct (destroy_fields g d) as (F1 & F2 & F3 & F4 & F5 & F6 & F7 & F8 & F9 & F10 & F11 & F12).
+  constructor; auto.
+  - intros j _. apply isrec_destroy.
+  - intros j _. apply grec_destroy.
+  - intros j _ Hr. rewrite cs_of_destroy. destruct (Nat.eqb_spec j d) as [->|]; [congruence|reflexivity].
+  - intros j Hj. rewrite isnode_destroy. exact Hj.
+  - intros j E. discriminate.
+Qed.
+Lemma recsame_dealloc_node g d : isrec g d = false -> recsame g (fst (do_dealloc g d)) None.
+Proof.
+  intros H. destruct (dealloc_fields g d) as (F1 & F2 & F3 & F4 & F5 & F6 & F7 & F8 & F9 & F10 & F11 & F12).
+  constructor; auto.
+  - intros j _. apply isrec_dealloc.
+  - intros j _. apply grec_dealloc.
+  - intros j _ Hr. rewrite cs_of_dealloc. destruct (Nat.eqb_spec j d) as [->|]; [congruence|reflexivity].
+  - intros j Hj. rewrite isnode_dealloc. exact Hj.
+  - intros j E. discriminate.
+Qed.
+Lemma zlog_lt g ls k : InvB g ls -> In k (zlog g) -> k < nheap g.
+Proof. intros IB H. apply isrec_lt. apply (b_rec _ _ IB k H). Qed.
+
+Lemma recsame_fault g x zc : recsame g x zc -> recsame g (with_fault x) zc.
+Proof. intros H. eapply recsame_ext; [exact H| | |]; reflexivity. Qed.
+Lemma recsame_misuse g x zc : recsame g x zc -> recsame g (with_misuse x) zc.
+Proof. intros H. eapply recsame_ext; [exact H| | |]; reflexivity. Qed.
+Lemma recsame_mtx g x m zc : recsame g x zc -> recsame g (with_mtx x m) zc.
+Proof. intros H. eapply recsame_ext; [exact H| | |]; reflexivity. Qed.
+Lemma recsame_head g x m zc : recsame g x zc -> recsame g (with_head x m) zc.
+Proof. intros H. eapply recsame_ext; [exact H| | |]; reflexivity. Qed.
+Lemma recsame_tail g x m zc : recsame g x zc -> recsame g (with_tail x m) zc.
+Proof. intros H. eapply recsame_ext; [exact H| | |]; reflexivity. Qed.
+Lemma recsame_pos g x a b zc : recsame g x zc -> recsame g (with_pos x a b) zc.
+Proof. intros H. eapply recsame_ext; [exact H| | |]; reflexivity. Qed.
+Lemma recsame_commit g x m zc : recsame g x zc -> recsame g (commit x m) zc.
+Proof. intros H. eapply recsame_ext; [exact H| | |]; reflexivity. Qed.
+Lemma recsame_null g k : recsame g (fst (null_call g k)) None.
+Proof. cbn. apply recsame_fault, recsame_refl. Qed.
+
+Lemma okz_own g ls t l : InvA g ls -> InvB g ls -> nth_error ls t = Some l -> in_unlock (at_ l) = true -> okz g (own_rec l) = true.
+Proof.
+  intros IA IB Hl Hu. destruct (own_in_log g ls t l IA IB Hl Hu) as [A (w & Eh)].
+  destruct (b_own1 _ _ IB t w (own_rec l)) as (_ & B & _); [rewrite (locof_at _ _ _ Hl); exact Eh|].
+  apply okz_iff. split; [exact B|apply (b_rec _ _ IB _ A)].
+Qed.
+
+(* a thread inside the release code keeps its knowledge when the record world does not change *)
+Lemma thrB_transfer g g' ls u l l' : InvA g ls -> InvB g ls -> nth_error ls u = Some l ->
+  in_unlock (at_ l) = true -> recsame g g' None -> hnd l' = hnd l -> priv_rec (at_ l') = None ->
+  thrB g u l' -> thrB g' u l'.
+Proof.
+  intros IA IB Hl Hu S Hh Hp T. apply (thrB_recsame g g' None S (b_rec _ _ IB) u l'); auto.
+  - intros k E. congruence.
+  - intros _. assert (own_rec l' = own_rec l) as -> by (unfold own_rec; rewrite Hh; reflexivity).
+    apply (own_in_log g ls u l IA IB Hl Hu).
+Qed.
+
+(* ---------- the steps on a private record ---------- *)
+Lemma priv_isrec g u l k : thrB g u l -> priv_rec (at_ l) = Some k -> isrec g k = true /\ ~ In k (zlog g).
+Proof. unfold thrB, privR. destruct (at_ l); cbn; intros H E; inversion E; subst; tauto. Qed.
+
+Lemma others_priv_lt g ls u lu k : InvB g ls -> nth_error ls u = Some lu -> priv_rec (at_ lu) = Some k -> k < nheap g.
+Proof. intros IB Hu Hk. apply isrec_lt. apply (priv_isrec g u lu k (b_thr _ _ IB u lu Hu) Hk). Qed.
+
+Lemma stepB_alloc_rec g ls t l l' :
+  InvA g ls -> InvB g ls -> nth_error ls t = Some l ->
+  hnd l' = hnd l -> priv_rec (at_ l) = None -> priv_rec (at_ l') = Some (nheap g) ->
+  rpc (at_ l) = false -> (forall z nxt, at_ l <> U_zf z nxt) ->
+  thrB (fst (do_alloc g (BRec drec))) t l' ->
+  InvB (fst (do_alloc g (BRec drec))) (upd ls t l').
+Proof.
+  intros IA IB Hl Hh Hp Hp' Hr Hzf Ht.
+  eapply (InvB_frame g _ ls t l l' (Some (nheap g)) IA IB Hl); auto.
+  - apply recsame_alloc_rec. intros k Hk. apply (zlog_lt g ls k IB Hk).
+  - intros u lu k Hut Hu Hk E. inversion E; subst k. pose proof (others_priv_lt g ls u lu _ IB Hu Hk). lia.
+  - intros w z. rewrite Hh. tauto.
+  - congruence.
+  - intros z nxt E. exfalso. apply (Hzf z nxt E).
+  - intros k Hk. right. intros v lv Hvt Hv E. rewrite Hp' in Hk. inversion Hk; subst k.
+    pose proof (others_priv_lt g ls v lv _ IB Hv E). lia.
+Qed.
+
+Lemma stepB_priv_upd g g' ls t l l' z :
+  InvA g ls -> InvB g ls -> nth_error ls t = Some l -> recsame g g' (Some z) ->
+  hnd l' = hnd l -> priv_rec (at_ l) = Some z -> priv_rec (at_ l') = Some z ->
+  thrB g' t l' ->
+  InvB g' (upd ls t l').
+Proof.
+  intros IA IB Hl S Hh Hp Hp' Ht.
+  assert (rpc (at_ l) = false) as Hr by (destruct (at_ l); try discriminate; reflexivity).
+  eapply (InvB_frame g g' ls t l l' (Some z) IA IB Hl); auto.
+  - intros u lu k Hut Hu Hk E. inversion E; subst k. apply Hut.
+    apply (b_priv _ _ IB u t z); [rewrite (pcof_at _ _ _ Hu); exact Hk|rewrite (pcof_at _ _ _ Hl); exact Hp].
+  - intros w x. rewrite Hh. tauto.
+  - congruence.
+  - intros x nxt E. rewrite E in Hp. discriminate.
+  - intros k Hk. left. congruence.
+Qed.
+
+Lemma privR_alloc g ls r : InvB g ls ->
+  let g' := fst (do_alloc g (BRec r)) in privR g' (nheap g) /\ cs_of g' (nheap g) = Some Alloc.
+Proof.
+  intros IB g'. unfold privR, g'. rewrite isrec_alloc, cs_of_alloc, Nat.eqb_refl. repeat split.
+  intros H. change (zlog (fst (do_alloc g (BRec r)))) with (zlog g) in H. pose proof (zlog_lt g ls _ IB H). lia.
+Qed.
+Lemma views_construct_rec g z r : isrec g z = true -> cs_of g z = Some Alloc ->
+  let g' := fst (do_construct g z (BRec r)) in
+  isrec g' z = true /\ cs_of g' z = Some Constr /\ grec g' z = r /\ zlog g' = zlog g.
+Proof.
+  intros Hr Hc g'. unfold g'. rewrite isrec_construct_rec, cs_of_construct, grec_construct_rec, Nat.eqb_refl, Hc by exact Hr.
+  apply cs_is_iff in Hc. rewrite Hc. repeat split; auto. apply construct_fields.
+Qed.
+Lemma views_setz g z r : isrec g z = true ->
+  let g' := setz g z r in isrec g' z = true /\ cs_of g' z = cs_of g z /\ grec g' z = r /\ zlog g' = zlog g.
+Proof.
+  intros Hr g'. unfold g'. rewrite isrec_setz, cs_of_setz by exact Hr. repeat split; auto.
+  - apply grec_setz_eq. apply isrec_lt. exact Hr.
+  - apply modc_fields.
+Qed.
+
+Lemma thrB_R_constr g ls t pr o h its0 : InvB g ls -> (exists w, h = Some (w, None)) ->
+  thrB (fst (do_alloc g (BRec drec))) t (Loc pr (R_constr o (nheap g)) h its0).
+Proof. intros IB H. destruct (privR_alloc g ls drec IB) as [P1 P2]. unfold thrB. cbn [at_ hnd]. auto. Qed.
+Lemma thrB_E_constr g ls t pr it c nx0 h its0 : InvB g ls -> isnode g c = true ->
+  thrB (fst (do_alloc g (BRec drec))) t (Loc pr (E_constr it c nx0 (nheap g)) h its0).
+Proof.
+  intros IB H. destruct (privR_alloc g ls drec IB) as [P1 P2]. unfold thrB. cbn [at_ hnd]. split; [exact P1|split; [exact P2|]].
+  rewrite (sa_isnode _ _ (sameA_alloc_rec g drec)). exact H.
+Qed.
+Lemma thrB_E_ldz g t pr it c nx0 z h its0 : thrB g t (Loc pr (E_constr it c nx0 z) h its0) ->
+  thrB (fst (do_construct g z (BRec (ZRec None None (Some c))))) t (Loc pr (E_ldz it nx0 z) h its0).
+Proof.
+  unfold thrB, privR. cbn [at_]. intros ([Q1 Q2] & Q3 & Q4).
+  destruct (views_construct_rec g z (ZRec None None (Some c)) Q1 Q3) as (V1 & V2 & V3 & V4).
+  unfold zown, znd. rewrite V1, V2, V3, V4. cbn. repeat split; auto. exists c. split; [reflexivity|].
+  rewrite isnode_construct_rec by exact Q1. exact Q4.
+Qed.
+Lemma thrB_R_cas g t pr o z old h its0 : thrB g t (Loc pr (R_st o z old) h its0) ->
+  thrB (setz g z (z_next (grec g z) old)) t (Loc pr (R_cas o z old) h its0).
+Proof.
+  unfold thrB, privR. cbn [at_ hnd]. intros ([Q1 Q2] & Q3 & Q4 & Q5).
+  destruct (views_setz g z (z_next (grec g z) old) Q1) as (V1 & V2 & V3 & V4).
+  unfold zown, znx, znd in *. rewrite V1, V2, V3, V4. cbn. repeat split; auto.
+Qed.
+Lemma thrB_E_cas g t pr it nx0 z old h its0 : thrB g t (Loc pr (E_stz it nx0 z old) h its0) ->
+  thrB (setz g z (z_next (grec g z) old)) t (Loc pr (E_cas it nx0 z old) h its0).
+Proof.
+  unfold thrB, privR. cbn [at_ hnd]. intros ([Q1 Q2] & Q3 & Q4 & Q5).
+  destruct (views_setz g z (z_next (grec g z) old) Q1) as (V1 & V2 & V3 & V4).
+  unfold zown, znx, znd in *. rewrite V1, V2, V3, V4. cbn. repeat split; auto.
+  destruct Q5 as (k & K1 & K2). exists k. split; [exact K1|]. rewrite isnode_setz by exact Q1. exact K2.
+Qed.
+
+Lemma cas_cond (a b : option nat) c :
+  (match a, b with Some x, Some y => Nat.eqb x y | None, None => true | _, _ => false end) && negb (Nat.eqb c 3) = true -> a = b.
+Proof.
+  intros H. apply andb_true_iff in H. destruct H as [H _]. destruct a, b; try discriminate; [|reflexivity].
+  apply Nat.eqb_eq in H. congruence.
+Qed.
+Lemma thrB_body g t pr o h its0 : thrB g t (Loc pr (body_pc o) h its0).
+Proof. unfold thrB. destruct o; exact I. Qed.
+Lemma rpc_body o : rpc (body_pc o) = false.
+Proof. destruct o; reflexivity. Qed.
+Lemma body_not_zf o x nxt : body_pc o <> U_zf x nxt.
+Proof. destruct o; discriminate. Qed.
+Lemma thrB_R_ldh g t pr o z h its0 : thrB g t (Loc pr (R_constr o z) h its0) ->
+  thrB (fst (do_construct g z (BRec (ZRec None (Some (guard_of t (own_w (Loc pr (R_constr o z) h its0)))) None)))) t (Loc pr (R_ldh o z) h its0).
+Proof.
+  unfold thrB, privR. cbn [at_ hnd]. intros ([Q1 Q2] & Q3 & (w & Q4)).
+  destruct (views_construct_rec g z (ZRec None (Some (guard_of t (own_w (Loc pr (R_constr o z) h its0)))) None) Q1 Q3) as (V1 & V2 & V3 & V4).
+  unfold zown, znd. rewrite V1, V2, V3, V4. cbn. repeat split; auto. exists w. subst h. split; reflexivity.
+Qed.
+
+(* ---------- the step lemma ---------- *)
+Ltac recsame_tac :=
+  repeat first [apply recsame_fault | apply recsame_misuse | apply recsame_mtx | apply recsame_head | apply recsame_tail
+               | apply recsame_pos | apply recsame_commit];
+  first [ apply recsame_refl | apply recsame_alloc_node | apply recsame_null
+        | (apply recsame_setn; eauto) | (apply recsame_construct_node; eauto)
+        | (apply recsame_destroy_node; eauto) | (apply recsame_dealloc_node; eauto) ].
+Lemma InvB_step : forall g ls t c l g' l' es,
+  InvA g ls -> InvB g ls -> nth_error ls t = Some l -> tstep t c g l = Some (g', l', es) -> InvB g' (upd ls t l').
+Proof.
+  intros g ls t c l g' l' es IA IB Hl Hs.
+  pose proof (b_thr _ _ IB t l Hl) as Tt. pose proof (a_thr _ _ IA t l Hl) as Ta.
+  destruct l as [pr p h its0]. destruct p.
+  all: try (destruct (t_unl _ _ Ta eq_refl) as (w0 & z0 & Eh0); cbn [hnd] in Eh0; subst h).
+  all: step_cases2 Hs; fold_fst; cbn [own_rec own_w hnd] in *.
+  (* the release code acting on the log *)
+  all: try (apply stepB_U_zd; assumption).
+  all: try (apply (stepB_U_zf g ls t pr n _ _ its0 IA IB Hl)).
+  all: try (apply (stepB_U_stn g ls t pr _ its0 IA IB Hl)).
+  all: try (apply (stepB_U_sto g ls t pr _ its0 IA IB Hl)).
+  all: try (exfalso; pose proof (okz_own g ls t _ IA IB Hl eq_refl) as Ok; cbn [own_rec hnd] in Ok; congruence).
+  (* steps that leave the record world alone *)
+  all: try (eapply (InvB_frame _ _ _ _ _ _ None IA IB Hl);
+            [ recsame_tac
+            | intros; discriminate
+            | cbn [hnd]; intros; split; intros E; first [exact E | discriminate | inversion E]
+            | cbn [at_ rpc]; rewrite ?rpc_reclaim_at; first [discriminate | reflexivity | auto]
+            | cbn [at_]; intros; discriminate
+            | cbn [at_ priv_rec]; rewrite ?priv_rec_reclaim, ?priv_rec_body; intros k E; first [discriminate | left; exact E]
+            | ]).
+  all: try (unfold thrB; cbn [at_]; exact I).
+  all: try (unfold thrB; cbn [at_ hnd]; eexists; reflexivity).
+  all: try (apply (wtarget_isnode g ls t _ _ IA Hl); reflexivity).
+  (* node cells handed to destroy / deallocate by the reclaimer *)
+  all: try (unfold thrB in Tt; cbn [at_] in Tt; destruct Tt as ((Rn & _) & _ & Ed);
+            apply isnode_isrec; apply (b_node _ _ IB n n0 (inlog_In _ _ Rn)); symmetry; exact Ed).
+  (* the scan and the node part of the reclaim loop *)
+  all: try (pose proof (trans_U_ld g' ls IA IB t pr _ its0 Hl) as T; cbn zeta in T; unfold znx in T; cbn [own_rec hnd] in T;
+            rewrite Heqo in T; exact T).
+  all: try (pose proof (trans_U_ld g ls IA IB t pr _ its0 Hl) as T; cbn zeta in T; unfold znx in T; cbn [own_rec hnd] in T;
+            rewrite Heqo in T; exact T).
+  all: try (apply (trans_U_own _ ls IB t pr _ its0 n cached Hl); assumption).
+  all: try (pose proof (trans_U_nx _ ls IA IB t pr _ its0 n _ Hl) as T; unfold znx in T;
+            repeat match goal with H : znext (grec _ _) = _ |- _ => rewrite H in T end; cbn beta iota in T; exact T).
+  all: try (eapply (thrB_transfer g _ ls t _ _ IA IB Hl eq_refl); [recsame_tac|reflexivity|reflexivity|];
+            unfold thrB in *; cbn [at_] in *; first [exact Tt | tauto]).
+  all: try (unfold thrB in *; cbn [at_] in *; unfold znx; first [exact Tt | tauto]).
+  all: try (assert (isrec g n0 = false) as Hnr by
+              (unfold thrB in Tt; cbn [at_] in Tt; destruct Tt as ((Rn & _) & _ & Ed);
+               apply isnode_isrec; apply (b_node _ _ IB n n0 (inlog_In _ _ Rn)); symmetry; exact Ed);
+            eapply (thrB_transfer g _ ls t _ _ IA IB Hl eq_refl);
+            [first [apply recsame_destroy_node | apply recsame_dealloc_node]; exact Hnr|reflexivity|reflexivity|];
+            unfold thrB in *; cbn [at_] in *; first [exact Tt | tauto]).
+  (* allocation of a record *)
+  all: try (apply (stepB_alloc_rec g ls t _ _ IA IB Hl); try reflexivity; [intros; discriminate|]).
+  (* construction of / store to the private record *)
+  all: try (unfold thrB in Tt; cbn [at_ hnd] in Tt; unfold privR in Tt;
+            eapply (stepB_priv_upd g _ ls t _ _ z IA IB Hl); try reflexivity;
+            [ repeat apply recsame_fault; first [apply recsame_construct_rec | apply recsame_setz]; tauto | ]).
+  (* what the thread knows about its private record afterwards *)
+  all: try (apply (thrB_R_constr _ ls t pr o _ its0 IB); exact Tt).
+  all: try (apply (thrB_E_constr _ ls t pr it c0 nx0 _ its0 IB); apply (t_refs _ _ Ta); apply in_or_app; right; left; reflexivity).
+  all: try (apply thrB_E_ldz; exact Tt).
+  all: try (apply thrB_R_ldh; exact Tt).
+  all: try (apply thrB_R_cas; exact Tt).
+  all: try (apply thrB_E_cas; exact Tt).
+  all: try (apply (thrB_R_cas g t pr o z old h its0 Tt)).
+  all: try (apply (thrB_E_cas g t pr it nx0 z old h its0 Tt)).
+  (* the successful CAS *)
+  all: try (apply cas_cond in Heqb; unfold thrB in Tt; cbn [at_ hnd] in Tt;
+            eapply (stepB_push g ls t _ _ z IA IB Hl); try reflexivity; cbn [at_ hnd];
+            try tauto; rewrite ?priv_rec_body, ?rpc_body; try reflexivity;
+            try apply thrB_body; try (intros; apply body_not_zf); try (intros; discriminate); try exact I).
+  all: try (destruct Tt as (T1 & T2 & T3 & T4 & T5)).
+  all: try (rewrite T4; symmetry; exact Heqb).
+  all: try (intros k Hk; rewrite T3 in Hk; discriminate).
+  all: try (destruct T5 as (k0 & K1 & K2); intros k Hk; rewrite K1 in Hk; inversion Hk; subst; exact K2).
+  all: try (right; destruct T5 as (w & W1 & W2); exists w; subst h; cbn [own_w hnd]; auto).
+  all: try (left; split; [exact T3|reflexivity]).
+Qed.
+
+(* ---------- reachable states ---------- *)
+Definition Inv2 (g : glob) (ls : list loc) : Prop := InvA g ls /\ InvB g ls.
+Lemma Inv2_step g ls t c l g' l' es :
+  Inv2 g ls -> nth_error ls t = Some l -> tstep t c g l = Some (g', l', es) -> Inv2 g' (upd ls t l').
+Proof. intros [IA IB] Hl Hs. split; [eapply InvA_step; eauto|eapply InvB_step; eauto]. Qed.
+
+Lemma InvB_init unf progs : InvB (gl (init unf progs)) (thr (init unf progs)).
+Proof.
+  assert (P : forall u, pcof (thr (init unf progs)) u = Idle) by (intros u; apply locof_init).
+  assert (Q : forall u, hnd (locof (thr (init unf progs)) u) = None) by (intros u; apply locof_init).
+  constructor; cbn [gl init init_glob zlog zhead].
+  - constructor.
+  - intros z [].
+  - intros z [].
+  - reflexivity.
+  - intros h E. discriminate.
+  - intros a [[] _].
+  - intros u w z E. rewrite Q in E. discriminate.
+  - intros z gd [[] _].
+  - intros z k [].
+  - intros u v z E. rewrite P in E. discriminate.
+  - intros u l Hu. cbn [thr init] in Hu. rewrite nth_error_map in Hu. destruct (nth_error progs u); [|discriminate].
+    cbn in Hu. inversion Hu; subst l. exact I.
+Qed.
+Lemma R_Inv2 unf progs s : R unf progs s -> Inv2 (gl s) (thr s).
+Proof.
+  intros H. eapply reachable_inv; [apply Inv2_step|split; [apply InvA_init|apply InvB_init]|exact H].
+Qed.
+
+(* ---------- the log is never touched after it was freed ---------- *)
+(* the record a step of this pc reads or writes *)
+Definition rec_access (l : loc) : option nat :=
+  match at_ l with
+  | R_st _ z _ | E_stz _ _ z _ => Some z
+  | U_ld | U_stn | U_sto => Some (own_rec l)
+  | U_own n _ | U_nx n _ | U_ln n => Some n
+  | _ => None
+  end.
+Lemma log_access_ok g ls t l z : Inv2 g ls -> nth_error ls t = Some l -> rec_access l = Some z -> okz g z = true.
+Proof.
+  intros [IA IB] Hl Hz. pose proof (b_thr _ _ IB t l Hl) as T. unfold thrB in T. unfold rec_access in Hz.
+  assert (Hone : forall n, region_pc (at_ l) = None -> inlog g n -> (forall u lu m, nth_error ls u = Some lu -> region_pc (at_ lu) = Some m -> m <> n) -> okz g n = true).
+  { intros n _ [A B] Hm. apply okz_iff. split; [|apply (b_rec _ _ IB n A)].
+    destruct (b_cs _ _ IB n A) as [C|[C|(C & u & nxt & D)]]; [exact C|congruence|exfalso].
+    unfold pcof, locof in D. destruct (nth_error ls u) as [lu|] eqn:Eu; [|discriminate].
+    apply (Hm u lu n Eu); [rewrite D; reflexivity|reflexivity]. }
+  destruct (at_ l) eqn:E; try discriminate; inversion Hz; subst z.
+  - (* R_st *) destruct T as ([Q1 Q2] & Q3 & _). apply okz_iff. auto.
+  - (* E_stz *) destruct T as ([Q1 Q2] & Q3 & _). apply okz_iff. auto.
+  - apply (okz_own g ls t l IA IB Hl). rewrite E. reflexivity.
+  - (* U_own n: n is not below a reclaimer's own record *)
+    destruct T as (Sc & _). apply Hone; [rewrite E; reflexivity|apply Sc|].
+    intros u lu m Hu Hm ->. assert (u <> t) as Hut by (intros ->; rewrite Hl in Hu; inversion Hu; subst lu; rewrite E in Hm; discriminate).
+    pose proof (region_of g u lu n (b_thr _ _ IB u lu Hu) Hm) as (_ & R2 & _).
+    apply (scan_above_region g ls IA IB u t lu l n (own_rec l) n Hut Hu Hm Hl); [rewrite E; reflexivity|reflexivity|exact Sc|exact R2].
+  - destruct T as (Sc & _). apply Hone; [rewrite E; reflexivity|apply Sc|].
+    intros u lu m Hu Hm ->. assert (u <> t) as Hut by (intros ->; rewrite Hl in Hu; inversion Hu; subst lu; rewrite E in Hm; discriminate).
+    pose proof (region_of g u lu n (b_thr _ _ IB u lu Hu) Hm) as (_ & R2 & _).
+    apply (scan_above_region g ls IA IB u t lu l n (own_rec l) n Hut Hu Hm Hl); [rewrite E; reflexivity|reflexivity|exact Sc|exact R2].
+  - destruct T as ((Rn & _) & C). apply okz_iff. split; [exact C|apply (b_rec _ _ IB n (inlog_In _ _ Rn))].
+  - apply (okz_own g ls t l IA IB Hl). rewrite E. reflexivity.
+  - apply (okz_own g ls t l IA IB Hl). rewrite E. reflexivity.
+Qed.
+
+(* ... and the allocator calls on records are the legal ones *)
+Lemma log_ledger_ok g ls t l : Inv2 g ls -> nth_error ls t = Some l ->
+  match at_ l with
+  | R_constr _ z | E_constr _ _ _ z => cs_of g z = Some Alloc
+  | U_zd n _ => cs_of g n = Some Constr
+  | U_zf n _ => cs_of g n = Some Destr
+  | _ => True
+  end.
+Proof.
+  intros [IA IB] Hl. pose proof (b_thr _ _ IB t l Hl) as T. unfold thrB in T. destruct (at_ l); auto; tauto.
+Qed.
